@@ -3,6 +3,9 @@ from model import Catalogue
 import r_lifecycle as L
 import r_string as S
 import r_bound as B
+import r_append as A
+import r_index as I
+import r_cmp as CMP
 
 TRUSTED = [
     "rustc nightly 1.97 type checker, borrow checker and MIR construction (-Zmir-opt-level=0)",
@@ -15,7 +18,15 @@ def c08_todo(F, R):
     L.r_todo(F, R, names={"clear"})
 
 
+def c19_freeze(F, R):
+    A.r_freeze(F, R, cheapest=True)
+
+
 PROPS = {
+    "C15": {"rules": [CMP.r_cmp], "explanation": "x", "decided": [], "not_decided": []},
+    "C05": {"rules": [I.r_ovf, I.r_panic_edges, I.r_nowrite_on_reject, A.r_freeze, I.r_concat, I.r_stride_iter, B.r_bound_stride_sites, B.r_index_failstop], "explanation": "x", "decided": [], "not_decided": []},
+    "C02": {"rules": [A.r_append, A.r_freeze], "explanation": "x", "decided": [], "not_decided": []},
+    "C19": {"rules": [c19_freeze], "explanation": "x", "decided": [], "not_decided": []},
     "C13": {"rules": [B.r_bound_readitems, B.r_index_failstop, B.r_bound_stride_sites], "explanation": "x", "decided": [], "not_decided": []},
     "C04": {"rules": [S.r_unsafe, S.r_strwrite], "explanation": "x", "decided": [], "not_decided": []},
     "C08": {
